@@ -274,6 +274,8 @@ def classify_F2(run, d):
     import findings
     if run.options[d["oi"] - 1]["memo"] and "memolabel" in d.get("haz", []) and d["df"] in ("val", "event-notallowed", "pair-val", "pair-errs"):
         return "F2: " + findings.what("F2")
+    if run.options[d["oi"] - 1]["memo"] and "F21" in d.get("haz", []) and d["df"] in ("pair-errs", "pair-nomatch"):
+        return "F21: " + findings.what("F21")
     return None
 
 
@@ -337,6 +339,7 @@ def check_C06(tier, seed, replay=None):
     t2_bind(run, 2500 if tier == "quick" else 30000)
     # real-vs-real: every option combination against the default run of the same parser
     npairs = 0
+    f21 = {(h["vi"], h["gi"], h["ii"], h["oi"]) for h in tot.get("kfhits", []) if h["df"] == "kf-F21"}     # parses T1 accepted under known finding F21
     for vx in range(len(run.variants)):
         obs = load_obs(run.obs[vx])
         for (gi, ii, oi), o in obs.items():
@@ -347,8 +350,10 @@ def check_C06(tier, seed, replay=None):
             for fld in ("status", "ok", "end", "val", "errs", "nomatch"):
                 a_, b_ = (o[fld]["is"], base[fld]["is"]) if fld == "nomatch" else (o[fld], base[fld])
                 if a_ != b_:
-                    div.append(dict(k=o["k"], vi=o["vi"], gi=gi, ii=ii, oi=oi, df="pair-" + fld, at=0, haz=["memolabel"] if any(
-                        d2["gi"] == gi and d2["ii"] == ii and "memolabel" in d2.get("haz", []) for d2 in div) else []))
+                    hz = ["memolabel"] if any(d2["gi"] == gi and d2["ii"] == ii and "memolabel" in d2.get("haz", []) for d2 in div) else []
+                    if (o["vi"], gi, ii, oi) in f21 and fld in ("errs", "nomatch"):
+                        hz.append("F21")
+                    div.append(dict(k=o["k"], vi=o["vi"], gi=gi, ii=ii, oi=oi, df="pair-" + fld, at=0, haz=hz))
                     break
     return std_finish(run, div, tot, "pure-block grammars (E(d) with predicates, random multi-rule, double-reach shapes: one rule reached at one offset along two paths) x all inputs x the 8 combinations of Memoize/Debug/Statistics; each compared with PegRef and with the default-option run of the same parser; ExprCnt <= expressions x (len+1) under Memoize",
                       classify=classify_F2, extra=dict(option_pairs_compared=npairs))
@@ -518,10 +523,28 @@ def check_C14(tier, seed, replay=None):
                                                    g.recover(g.seq([g.lit([F.B]), g.throw(th)]), g.lit([Y]), [l2])])]))
         probe(lambda g: setattr(g, "rules", [g.recover(g.seq([g.recover(g.seq([g.lit([F.A]), g.un("opt", g.throw(l1))]), g.lit([X]), [l1]),
                                                               g.recover(g.seq([g.lit([F.B]), g.throw(th)]), g.lit([Y]), [l2])]), g.action(g.lit([F.A])), ["la", "lb", "lc"])]))
+    # a throw falling through k failing handlers (k = 0..3) with a non-empty state store: the handler that finally runs, and
+    # whatever runs after a throw that failed under ? * +, see the store exactly as it was at the throw
+    def fall(g, k, wrap, after):
+        e = g.seq([g.lit([F.A]), g.throw("la")])
+        for i in range(k):
+            e = g.recover(e, g.lit([X]) if i % 2 == 0 else g.seq([g.lit([Y]), g.lit([Y])]), ["la"] if i != 1 else ["lb", "la"])
+        if after == "handler":
+            e = g.recover(e, g.action(g.seq([g.pred(False, "eq", key="x", arg=1), g.un("star", g.any())])), ["la"])
+        if wrap:
+            e = g.un(wrap, e)
+        tail = g.action(g.seq([g.pred(False, "eq", key="x", arg=1), g.un("star", g.any())]))
+        g.rules = [g.seq([g.state("set", "x", 1), g.state("app", "cl", 2), e, tail])]
+    for k in range(4):
+        for wrap in (None, "opt", "star"):
+            for after in ("handler", "rest"):
+                if wrap is None and after == "rest":
+                    continue
+                probe(lambda g: fall(g, k, wrap, after))
     cfg = F.RandCfg(depth=depth, maxrules=3, throw=True, preds=True, blocks=True, errs=0.1)
     groups += F.random_groups(seed, n, cfg, gi0=len(groups) + 1)
-    cfg2 = F.RandCfg(depth=depth, maxrules=3, throw=True, state=True, blocks=True)
-    groups += F.random_groups(seed + 7, n // 3, cfg2, gi0=len(groups) + 1)
+    cfg2 = F.RandCfg(depth=depth, maxrules=3, throw=True, state=True, cloner=True, blocks=True)
+    groups += F.random_groups(seed + 7, n // 2, cfg2, gi0=len(groups) + 1)
     inputs = F.all_inputs([F.A, F.B, X], maxlen)
     options = [opt(), opt(maxexpr=5000), opt(debug=True)]
     run.keep_debug = True
@@ -669,13 +692,17 @@ def check_C08(tier, seed, replay=None):
     for _ in range(200 if tier == "quick" else 600):
         inputs.append([rng.choice([F.NN, F.NN, F.PLUS, F.MINUS, F.STAR_, 94, F.LP, F.RP, 120]) for _ in range(rng.randint(maxlen + 1, maxlen + 4))])
     inputs += [[F.NN, op, F.NN, 120] for op in (F.PLUS, F.MINUS, F.STAR_)] + [[F.NN, F.PLUS, F.NN, F.PLUS, F.NN, 120], [F.NN, F.PLUS, F.NN, F.STAR_, F.NN, 120]]
+    # ill-formed and multi-byte input right behind what a growth attempt consumes: the errors of an abandoned attempt
+    # are dropped with it, those of the iteration the rule denotes are not
+    inputs += [[F.NN, F.PLUS, 0xFF], [F.NN, F.PLUS, F.NN, F.PLUS, 0xFF], [F.NN, F.STAR_, 0x80, 120], [F.NN, F.PLUS, 0xFF, F.NN], [0xFF], [F.NN, 0xFF],
+               [F.NN, F.MINUS, 0xC3], [F.NN, F.PLUS, 0xC3, 0xA9], [F.NN, F.STAR_, F.NN, F.PLUS, 0xFF], [F.LP, F.NN, F.PLUS, 0xFF]]
     options = [opt(), opt(memo=True), opt(debug=True), opt(debug=True, memo=True), opt(entry="@1", entryrule=1), opt(entry="@1", entryrule=1, memo=True)]
     nin = len(inputs)
     run.keep_debug = True
     import findings
     run.add_witnesses([f["id"] for f in findings.active("C08")], groups, inputs, options)
     div, tot = run.execute(groups, inputs, options, lambda g: [(ii, oi) for ii in range(nin) for oi in (0, 1)] + ([(ii, 2 + (ii % 2)) for ii in range(0, nin, 9)] if g.gi % 3 == 0 else []) +
-                           ([(ii, 4 + (ii % 2)) for ii in range(0, nin, 2)] if g.lr and g.lr[0] > 0 and not any(n_["err"] for n_ in g.nodes) else []),      # Entrypoint = the left-recursive rule itself (success is observable only without error-returning blocks)
+                           ([(ii, 4 + (ii % 2)) for ii in range(0, nin, 2) if max(inputs[ii] or [0]) < 0x80] if g.lr and g.lr[0] > 0 and not any(n_["err"] for n_ in g.nodes) else []),      # Entrypoint = the left-recursive rule itself (success is observable only when no error is recorded: no error-returning blocks, well-formed input)
                            [["-support-left-recursion"], ["-support-left-recursion", "-optimize-parser"]], timeout_ms=8000)
     from rt import pairwise
     d2, npairs = pairwise(run, [(i, i + 1) for i in range(0, len(run.variants), 2)], fields=("status", "ok", "end", "val", "errs", "store"))
@@ -730,6 +757,17 @@ def check_C07(tier, seed, replay=None):
         return g
     for k_ in range(150 if tier == "quick" else 1500):
         builders.append(lambda gi, sd=seed * 1000 + k_: dense(gi, sd))
+    def f22(gi):          # the witness of known finding F22 (a cycle that closes through a throw and a handler still in force)
+        g = _G(gi)
+        r1 = g.choice([g.recover(g.seq([g.lit([F.A]), g.throw("la")]), g.ref(3), ["la"]), g.lit([F.B])])
+        r2 = g.seq([g.cls((), (), False, False), g.ref(1)])
+        r3 = g.choice([g.recover(g.seq([g.un("star", g.lit([F.A])), g.throw("la")]), g.ref(2), ["la"]), g.lit([F.B])])
+        g.rules = [r1, r2, r3]
+        g.disp = [""] * 3
+        g.compute_args()
+        g.maydiverge = True
+        return g
+    builders.append(f22)
     groups = [b(i + 1) for i, b in enumerate(builders)]
     pigeon = P.build_pigeon()
     res = run_pigeon_each(groups, [], pigeon)
@@ -790,10 +828,10 @@ def check_C07(tier, seed, replay=None):
         os.remove(dbg)
     d3, tot3 = P.validate_t1(gp, dict(inputs=[[]], options=[opt()]), [], shards=12, module="TraceReentry", obsname="reentry.ndjson",
                              lines=[json.dumps(t) + "\n" for t in rtr], min_chunk=100) if rtr else ([], dict(n=0, states=0, transitions=0))
-    f6 = {d["gi"] for d in div if d["df"] == "accepted-left-recursion-F6"}
+    f6 = {d["gi"] for d in div if d["df"] in ("accepted-left-recursion-F6", "accepted-left-recursion-F22")}
     for d in d3:
         if accepted[d["gi"] - 1].gi in f6:
-            continue            # the run-time consequence of known finding F6 (the grammar should have been rejected)
+            continue            # the run-time consequence of known findings F6 / F22 (the grammar should have been rejected)
         d["vi"], d["oi"] = run2.variants[0].vi, 2
         run.violation(run2.replay_path(d), "accepted grammar re-enters a rule at the same offset (Debug trace, line %d)" % d["at"])
     tot2 = dict(n=tot2["n"] + tot3["n"], states=tot2["states"] + tot3["states"], transitions=tot2["transitions"] + tot3["transitions"])
@@ -812,6 +850,8 @@ def classify_C07(run, d):
     import findings
     if d["df"] == "accepted-left-recursion-F6":
         return "F6: " + findings.what("F6")
+    if d["df"] == "accepted-left-recursion-F22":
+        return "F22: " + findings.what("F22")
     if d["df"] == "model-drift":
         note = "model drift: LeftRecImpl.tla (transcription of pigeon's analysis) disagrees with the real command on some grammars; no verdict depends on it"
         if note not in run.notes:
